@@ -346,6 +346,7 @@ class _GenerateRenderMethod:
     def write_inherit(self, node):
         """write the module-level inheritance-determination callable."""
 
+        self.printer.start_source(node.lineno)
         self.printer.writelines(
             "def _mako_inherit(template, context):",
             "_mako_generate_namespaces(context)",
